@@ -323,10 +323,40 @@ func main() {
 			}
 			outcomes["taken"]++
 			if alt.Sym == "HAVING_CLAUSE" || alt.Sym == "OBJECT_BINDING_EXTRACT" || alt.Sym == "MORE_FILTER_ARGUMENTS" {
-				r.Sample(c)
+				r.Sample(map[string]interface{}{"alternative": c.Alt.String(), "text": c.Text, "origin": c.Origin})
 			}
 		}
 	}
+	// 4. every statement up to a token length: the alternatives the real parser
+	// reports are exactly those of the table-driven derivation.
+	sentLen := r.Pick(13, 15)
+	nSent, nSentRendered := 0, 0
+	bql.Sentences(sentLen, func(ks []recog.Kind) bool {
+		nSent++
+		text, ok := recog.Render(ks)
+		if !ok {
+			return true
+		}
+		nSentRendered++
+		tr := bql.GreedyTrace(ks)
+		if !tr.Accepted {
+			return true // derivable only by skipping an optional part: outside "chosen by one token"
+		}
+		c := witnessCase{Alt: tr.Taken[len(tr.Taken)-1], Tokens: recog.KindNames(ks), Text: text, Origin: "statement-enumeration"}
+		ok, shape, detail := checkWitness(bql, c, append([]recog.Kind{}, ks...))
+		r.Add("traces_validated_against_impl", 1)
+		distinct[text] = true
+		if !ok {
+			outcomes[shape]++
+			r.Fail(common.Failure{Check: "witness", Class: "statement-enumeration", Shape: shape, Case: c, Detail: detail})
+		} else {
+			outcomes["taken"]++
+		}
+		return true
+	})
+	r.Set("statements_enumerated", nSent)
+	r.Set("statements_enumerated_max_tokens", sentLen)
+	r.Set("statements_enumerated_rendered", nSentRendered)
 	r.Set("witness_outcomes", outcomes)
 	r.Set("empty_alternatives", emptyAlts)
 	r.Set("occurrence_witnesses", occurrences)
@@ -334,7 +364,7 @@ func main() {
 	r.Set("evaluations", r.Get("traces_validated_against_impl")+totalPairs)
 	r.Set("distinct_nontrivial", len(distinct))
 	r.Set("exhaustive", true)
-	r.Set("rule", "both tables completely: every rule, every pair of alternatives, every referenced symbol; per alternative of BQL() the shortest witness plus one witness per occurrence of its symbol in another alternative, each replayed on the real parser with recording hooks; distinct_nontrivial = distinct witness texts")
+	r.Set("rule", "both tables completely: every rule, every pair of alternatives, every referenced symbol; per alternative of BQL() the shortest witness plus one witness per occurrence of its symbol in another alternative, each replayed on the real parser with recording hooks; plus every derivable statement up to statements_enumerated_max_tokens tokens, parser trace compared with the table derivation; distinct_nontrivial = distinct witness texts")
 	r.Finish()
 }
 
